@@ -133,17 +133,38 @@ def _whole_in_order(it: dict, d: Defs) -> bool | None:
 def rule_barrier(ctx: Ctx) -> None:  # noqa: C901
     P = ctx.prog
     inner = P.func(f"{RUN}.run_map_async._run_pipeline")
+    # the functions that resolve futures / submit work are found by what they do, not by name
+    mod_funcs = [f_ for f_ in P.functions_in(RUN) if f_.cls is None]
+    resolvers = {f_.qualname for f_ in mod_funcs if any(isinstance(c, ast.Call) and isinstance(c.func, ast.Attribute) and c.func.attr in ("result", "wrap_future") for c in ast.walk(f_.node))}
+    submitters = {f_.qualname for f_ in mod_funcs if any(isinstance(c, ast.Call) and isinstance(c.func, ast.Attribute) and c.func.attr == "submit" for c in ast.walk(f_.node))}
+
+    def reaching(f_: FuncInfo, targets: set[str]) -> list[ast.Call]:
+        return [s_.node for s_ in ctx.cg.sites.get(f_.qualname, []) if any(c.qualname in targets or ctx.cg.reachable(c.qualname) & targets for c in s_.callees)]
+
     for a in ("_run_and_process_generation", "_run_and_process_generation_async"):
         f = P.func(f"{RUN}.{a}")
         cfg = ctx.cfg(f)
-        sub = cfg.nodes(lambda s: not isinstance(s, (ast.If, ast.For)) and any(isinstance(c, ast.Call) and dotted(c.func) == "_submit_generation" for c in ast.walk(s)))
-        proc = set(cfg.nodes(lambda s: not isinstance(s, (ast.If, ast.For)) and any(isinstance(c, ast.Call) and dotted(c.func).startswith("_process_generation") for c in ast.walk(s))))
+        sub_calls = [c for c in reaching(f, submitters) if c not in reaching(f, resolvers)]
+        proc_calls = [c for c in reaching(f, resolvers) if c not in reaching(f, submitters)]
+        sub = [n for n in (cfg.node_containing(c) for c in sub_calls) if n is not None]
+        proc = {n for n in (cfg.node_containing(c) for c in proc_calls) if n is not None}
+        # a processing call made once per element of a loop: the loop statement as a whole is the processing step
+        # (an empty generation has nothing to process); that the loop takes the whole generation is rule all-funcs
+        par_s = {id(c): p_ for p_ in ast.walk(f.node) for c in ast.iter_child_nodes(p_)}
+        for c in proc_calls:
+            x = c
+            while id(x) in par_s and not isinstance(x, ast.stmt):
+                x = par_s[id(x)]
+            up = par_s.get(id(x))
+            if isinstance(up, (ast.For, ast.AsyncFor)) and x in up.body:
+                proc.add(cfg.node(up))
         if not sub:
-            ctx.add("2-barrier", f, f.node, None, "UNDECIDED: _submit_generation call not found", key=f"submit-then-process {a}")
+            ctx.add("2-barrier", f, f.node, None, "UNDECIDED: no call that submits the generation's work was found", key=f"submit-then-process {a}")
             continue
         ok = bool(proc) and cfg.must_pass(sub[0], EXIT, proc, normal_only=True)
-        unawaited = [p_ for p_ in proc if a.endswith("_async") and not any(isinstance(x, ast.Await) for x in ast.walk(cfg.stmt[p_]))]
-        ctx.add("2-barrier", f, cfg.stmt[unawaited[0]] if unawaited else f.node, ok and not unawaited, "the whole generation is processed (awaited) after it was submitted" if ok and not unawaited else
+        par_f = {id(c): p_ for p_ in ast.walk(f.node) for c in ast.iter_child_nodes(p_)}
+        unawaited = [c for c in proc_calls if a.endswith("_async") and any(cc.is_async for s_ in ctx.cg.sites.get(f.qualname, []) if s_.node is c for cc in s_.callees) and not isinstance(par_f.get(id(c)), ast.Await)]
+        ctx.add("2-barrier", f, unawaited[0] if unawaited else f.node, ok and not unawaited, "the whole generation is processed (awaited) after it was submitted" if ok and not unawaited else
                 "a generation can be left unprocessed / un-awaited before the driver goes on", key=f"submit-then-process {a}")
     gen_calls = [c for c in ast.walk(inner.node) if isinstance(c, ast.Call) and dotted(c.func) == "_run_and_process_generation_async"]
     par = {id(c): p for p in ast.walk(inner.node) for c in ast.iter_child_nodes(p)}
@@ -158,13 +179,25 @@ def rule_barrier(ctx: Ctx) -> None:  # noqa: C901
         comp = [n for n in ast.walk(f.node) if isinstance(n, (ast.Name, ast.Attribute)) and (n.id if isinstance(n, ast.Name) else n.attr) in FORBIDDEN or (isinstance(n, ast.Attribute) and n.attr == "wait" and norm(n.value) == "asyncio")]
         ctx.tri("2-barrier", f, (comp or [it["node"] for it in its] or [f.node])[0], bool(its) and all(v is True for v in verdicts) and not comp, any(v is False for v in verdicts) or bool(comp),
                 "every future of the function is resolved, in submission order", "the futures are resolved in part / in another order (completion order): results can be paired with the wrong index", "resolution of the futures not recognised", key=f"resolve-all {f.name}")
-    for q, what in ((f"{RUN}._process_generation", "processed"), (f"{RUN}._process_generation_async", "processed"), (f"{RUN}._submit_generation", "submitted")):
-        f = P.func(q)
-        gp = [p_ for p_ in f.param_names() if p_ == "generation"]
-        its = [it for it in iterations(f.node) if gp and any(isinstance(x, ast.Name) and x.id == gp[0] for x in ast.walk(it["iter"]))]
-        verdicts = [_whole_in_order(it, Defs(f)) for it in its]
-        ctx.tri("2-barrier", f, (its or [{"node": f.node}])[0]["node"], bool(its) and all(v is True for v in verdicts), any(v is False for v in verdicts),
-                f"every function of the generation is {what}", f"only part of the generation is {what} (sliced / filtered / re-ordered iteration)", "iteration over the generation not recognised", key=f"all-funcs {f.name}")
+    # every function that walks a generation (a `list[PipeFunc]` parameter) to submit or to resolve takes it whole, in order
+    n_gen = 0
+    for f in mod_funcs:
+        gp = [a_.arg for a_ in f.params if a_.annotation is not None and norm(a_.annotation) in ("list[PipeFunc]", "Sequence[PipeFunc]")]
+        if not gp:
+            continue
+        for it in iterations(f.node):
+            if not any(isinstance(x, ast.Name) and x.id in gp for x in ast.walk(it["iter"])):
+                continue
+            inside = lambda calls_: [c for c in calls_ if any(c is x for x in ast.walk(it["node"]))]  # noqa: E731
+            s_in, r_in = inside(reaching(f, submitters)), inside(reaching(f, resolvers))
+            what = "submitted" if s_in and not r_in else ("processed" if r_in and not s_in else None)
+            if what is None:
+                continue
+            n_gen += 1
+            v = _whole_in_order(it, Defs(f))
+            ctx.tri("2-barrier", f, it["node"], v is True, v is False,
+                    f"every function of the generation is {what}", f"only part of the generation is {what} (sliced / filtered / re-ordered iteration)", "iteration over the generation not recognised", key=f"all-funcs {what} {'async' if f.is_async else 'sync'}")
+    ctx.floor("2-barrier.all-funcs", n_gen, 3)
     mod = P.module(RUN)
     used = sorted({n.id if isinstance(n, ast.Name) else n.attr for n in ast.walk(mod.tree) if isinstance(n, (ast.Name, ast.Attribute)) and (n.id if isinstance(n, ast.Name) else n.attr) in FORBIDDEN}
                   | {n.attr for n in ast.walk(mod.tree) if isinstance(n, ast.Attribute) and n.attr == "wait" and norm(n.value) in ("asyncio", "concurrent.futures", "futures")})
